@@ -18,7 +18,7 @@ for f in mutants/*.patch seeded/*/patch.diff; do
   [ -n "$props" ] || { echo "SKIP $f (no property line)"; continue; }
   wt=$(mktemp -d "${TMPDIR:-/tmp}/mut.XXXXXX"); out=$(mktemp -d "${TMPDIR:-/tmp}/mutout.XXXXXX")
   git -C /repo worktree add -q --detach "$wt" HEAD || { echo "worktree failed"; exit 2; }
-  if ! (cd "$wt" && grep -v '^# ' "/verif/$f" | git apply --whitespace=nowarn -); then
+  if ! (cd "$wt" && grep -v "^# " "/verif/$f" | git apply --whitespace=nowarn - 2>/dev/null || grep -v "^# " "/verif/$f" | git apply --3way --whitespace=nowarn - 2>/dev/null); then
     echo "NOAPPLY $f"; fail=1
   else
     caught=""
